@@ -35,6 +35,8 @@ pub enum Family {
     SemChain,
     /// async tasks, events, join/abort/detach
     Async,
+    /// thread lifecycle: nested spawns, joins, scoped threads, thread-locals with destructors, lazy statics
+    Threads,
     /// threads: a bit of everything (no async)
     Mixed,
     /// everything
@@ -53,6 +55,7 @@ pub const ALL_FAMILIES: &[Family] = &[
     Family::SemAsync,
     Family::SemChain,
     Family::Async,
+    Family::Threads,
     Family::Mixed,
     Family::All,
 ];
@@ -71,6 +74,8 @@ pub struct GenCfg {
     pub rand: bool,
     /// allow reset_step_count ops
     pub resets: bool,
+    /// allow ops on the static pool (thread-locals, lazy statics, static Once, labels)
+    pub statics: bool,
     /// allow failing asserts (uncaught panics)
     pub asserts: bool,
     /// allow LockPanic (poisoning)
@@ -81,7 +86,7 @@ pub struct GenCfg {
 
 impl GenCfg {
     pub fn small(family: Family) -> Self {
-        GenCfg { family, max_tasks: 3, max_ops: 3, max_main_ops: 2, control: true, rand: false, resets: false, asserts: false, poison: false, avoid_known: true }
+        GenCfg { family, max_tasks: 3, max_ops: 3, max_main_ops: 2, control: true, rand: false, resets: false, statics: false, asserts: false, poison: false, avoid_known: true }
     }
 }
 
@@ -190,6 +195,10 @@ enum K {
     Reset,
     WaitSeq,
     CheckNotify,
+    Tls,
+    Lazy,
+    StaticOnce,
+    Label,
 }
 
 fn menu(cfg: &GenCfg) -> Vec<K> {
@@ -208,6 +217,7 @@ fn menu(cfg: &GenCfg) -> Vec<K> {
         Family::SemAsync => vec![Acquire, Acquire, TryAcquire, Release, Release, Release, Close, Avail, AcqStart, AcqStart, AcqStart, AcqFinish, AcqFinish, AcqDrop, AcqDrop, Yield],
         Family::SemChain => vec![AcqStart, AcqStart, AcqStart, AcqStart, AcqFinish, AcqFinish, AcqDrop, AcqDrop, Acquire, TryAcquire, Release, Release],
         Family::Async => vec![EvWait, EvWait, EvWait, EvSet, EvSet, EvSet, EvWake, Yield, Yield, Abort, Abort, DropHandle, IsFinished, IsFinished, ALoad, AStore, Lock, Unlock],
+        Family::Threads => vec![Tls, Tls, Tls, Tls, Lazy, StaticOnce, Label, Yield, Yield, ALoad, AStore, AFetchAdd, Lock, Unlock, MAdd],
         Family::Mixed => vec![
             Lock, TryLock, Unlock, MAdd, MGet, Read, Write, RwUnlock, RwGet, ALoad, AStore, AFetchAdd, ACas, CvWait, NotifyOne, NotifyAll, MSet, BWait, CallOnce, OnceDone, Send, Send, TrySend, Recv,
             TryRecv, DropTx, Yield, Park, Unpark, Acquire, TryAcquire, Release, Avail,
@@ -232,6 +242,9 @@ fn menu(cfg: &GenCfg) -> Vec<K> {
     }
     if cfg.resets {
         m.push(Reset);
+    }
+    if cfg.statics && cfg.family != Family::Threads {
+        m.extend([Tls, Tls, Lazy, StaticOnce, Label]);
     }
     if cfg.poison && matches!(cfg.family, Family::Locks | Family::Condvar | Family::Mixed | Family::All) {
         m.push(LockPanic);
@@ -545,6 +558,10 @@ pub fn build(raw: &RawProg, cfg: &GenCfg) -> (Prog, FixStats) {
                 }
                 K::Assert => ops.push(Op::AssertLast((r.extra % 4) as i64)),
                 K::Reset => ops.push(Op::ResetSteps),
+                K::Tls => ops.push(Op::Tls(r.obj as usize % 3)),
+                K::Lazy => ops.push(Op::Lazy(r.obj as usize % 2)),
+                K::StaticOnce => ops.push(Op::StaticOnce),
+                K::Label => ops.push(Op::Label(v)),
                 K::WaitSeq => {
                     if !held_m[0] {
                         ops.push(Op::Lock(0));
@@ -638,8 +655,13 @@ pub fn build(raw: &RawProg, cfg: &GenCfg) -> (Prog, FixStats) {
         while pos > 0 && matches!(tasks[parent].ops[pos - 1], Op::SkipUnlessLast(..)) {
             pos -= 1;
         }
-        tasks[parent].ops.insert(pos, Op::Spawn(child));
         let rt = &raw.tasks[child - 1];
+        if cfg.family == Family::Threads && rt.is_async {
+            // a scoped thread: spawned and awaited by thread::scope
+            tasks[parent].ops.insert(pos, Op::Scope(vec![child]));
+            continue;
+        }
+        tasks[parent].ops.insert(pos, Op::Spawn(child));
         if rt.joined {
             let len2 = tasks[parent].ops.len();
             let mut jpos = pos + 1 + idx(rt.join_at, len2 - pos);
